@@ -20,9 +20,16 @@ Every generated Python module is compile()d with warnings as errors and imported
 (or numpy/pydsdl, the documented runtime dependencies of the generated Python; cetl/ for the cetl flavour) or name a
 file the same run produced.
 
-Oracle: exit status 0 and no diagnostics.  A failing batched case is bisected (each member alone, then ddmin over the
-rest for interactions) relative to the diagnostics of a control type and of the empty skeleton, so that `sig` names the
-input feature: {kind, feature, origin, ser[, std][, compiler]}.
+Oracle: exit status 0 and no diagnostics.  A failing batched case is attributed: the diagnostics classes of a control
+type (`uint8 a`) and of the case's empty skeleton are the baseline (reported once as feature any_type / skeleton:*);
+every further class is traced by recursive halving of the member list to single members, irreducible groups go
+through ddmin (interactions), the remainder is re-tested.  `sig` = {kind, feature, origin, ser[, std][, compiler]}
+names the input feature, never the raw input: for names it is (position, class of the name) - e.g.
+{kind: c_compile, feature: attr_name@bool_fixed, origin: c_reserved, ser: on}; the concrete names are listed in `what`
+and in coverage.stats.failing_names.  Every violation is re-executed from its minimal case before it is reported.
+C constants are #defines, so a header that compiles on its own says nothing about them: the L5 constant cases are
+additionally compiled with every parenthesised object-like macro expanded and the result is recorded as a STATISTIC
+(coverage.stats.statistics_not_judged), not judged - the statement only demands that the header compiles on its own.
 """
 from __future__ import annotations
 
@@ -644,9 +651,9 @@ def attribute(
             continue
         if len(grp) == 1:
             m = members[grp[0]]
-            mk(cid, ev, base, m.get("feature", m["label"]), m.get("origin", "?"), nsspace.assemble(case, grp), m.get("name", ""))
+            mk(cid, ev, base, m.get("feature", m["label"]), m.get("origin", "?"), nsspace.assemble(case, grp, prune=True), m.get("name", ""))
         else:
-            mk(cid, ev, base, "+".join(members[i]["label"] for i in grp), "interaction", nsspace.assemble(case, grp))
+            mk(cid, ev, base, "+".join(members[i]["label"] for i in grp), "interaction", nsspace.assemble(case, grp, prune=True))
     if not found and not any(f.cid == cid for f in findings):
         give_up(list(range(len(members))), "no member set reproduces the failure of the whole case")
     return findings
@@ -697,19 +704,22 @@ def _recheck(f: Finding) -> typing.Tuple[bool, str]:
     """Re-executes a finding from its minimal recorded case (ground rule: a divergence is a harness error)."""
     work = pathlib.Path(_SCRATCH) / f"r{os.getpid()}"
     try:
-        kinds = _replay_kinds(work, f.case)
+        fs = _replay_failures(work, f.case)
     finally:
         shutil.rmtree(work, ignore_errors=True)
-    return (f.kind in kinds or f.kind == "unattributed"), ",".join(sorted(kinds))
+    return (bool(fs) or f.kind == "unattributed"), ",".join(sorted({x.kind for x in fs}))
 
 
-def _replay_kinds(work: pathlib.Path, case: dict, verbose: bool = False) -> typing.Set[str]:
+def _replay_failures(work: pathlib.Path, case: dict, verbose: bool = False) -> typing.List[Failure]:
+    """Failures of the recorded kind in the recorded generated file (all failures if the case records neither)."""
     cfg = Cfg(case["lang"], case.get("std", ""), case["ser"])
     ev = evaluate(work / "replay", case, cfg, bool(case.get("thorough", False)))
+    want_kind, want_file = case.get("kind"), case.get("file")
+    hits = [f for f in ev.failures if (not want_kind or f.kind == want_kind) and (not want_file or f.file == want_file or f.kind == "generation")]
     if verbose:
         for f in ev.failures:
-            print(f"  [{f.kind}/{f.compiler}] {f.diag}")
-    return {f.kind for f in ev.failures}
+            print(f"  {'*' if f in hits else ' '} [{f.kind}/{f.compiler}] {f.diag}")
+    return hits
 
 
 # ------------------------------------------------------------------------------------------------ entry points
@@ -776,6 +786,8 @@ def run(ctx: Ctx) -> int:
             exp: typing.Set[str] = set()
             for owner in {f.cid for f in fs}:
                 exp |= explored.get((owner, "cpp", ser), set())
+            if kind == "cpp_compile":
+                exp.discard(CETL)  # generated, never compiled
             if stds != exp:
                 sig["std"] = ",".join(sorted(stds))
         comps = {f.compiler for f in fs} - {"-", "python"}
@@ -863,11 +875,11 @@ def replay(ctx: Ctx, case: dict) -> int:
     _SCRATCH = str(ctx.scratch)
     print(f"replaying {case.get('lang')}/{case.get('std') or '-'} serialization={case.get('ser')} files={sorted(case['files'])}")
     try:
-        kinds = _replay_kinds(ctx.scratch / "replay", case, verbose=True)
+        hits = _replay_failures(ctx.scratch / "replay", case, verbose=True)
     except _Rejected as e:
         raise HarnessError(f"PyDSDL rejects the replay case: {e}") from e
-    print("failing kinds:", sorted(kinds) or "none")
-    return 1 if kinds else 0
+    print(f"recorded failure ({case.get('kind', 'any kind')} in {case.get('file', 'any file')}):", "REPRODUCED" if hits else "not observed")
+    return 1 if hits else 0
 
 
 __all__ = ["run", "replay", "Bag"]
